@@ -90,6 +90,7 @@ type bsim struct {
 	arrival           []string
 	against           map[string]string
 	pins              *remotePins
+	hubLeaves         int // > 0: the public-hub output is produced, with that many leaf files
 	counters          map[string]int
 }
 
@@ -553,6 +554,10 @@ func Run(tp *tape.Tape, env *engine.Env) *engine.Outcome {
 
 	if m.prop == "C02" {
 		m.pins = m.newRemotePins()
+		if tp.Draw("publichub", 3) == 2 {
+			m.hubLeaves = 3 + tp.Draw("hubleaves", 6)
+			s.Probe("public-hub-filtered")
+		}
 		m.against = m.ws.Mutate(tp)
 		// a tape-chosen rule selection: categories and single rule ids, with exceptions
 		pool := []string{"STANDARD", "COMMENTS", "UNARY_RPC", "PACKAGE_NO_IMPORT_CYCLE", "MINIMAL", "BASIC", "RPC_NO_CLIENT_STREAMING"}
